@@ -17,6 +17,7 @@ import (
 	"github.com/apache/arrow-go/v18/arrow"
 	"github.com/apache/arrow-go/v18/arrow/array"
 	"github.com/apache/arrow-go/v18/arrow/memory"
+	"time"
 )
 
 const c03MaxLen = 1 << 20 // declared lengths above this are not sent (see Assumptions)
@@ -493,16 +494,44 @@ func C03(e *simkern.Env) {
 		}
 		// ---- HTTP: every request gets a complete response with a status
 		if !e.Violated() {
-			cl := httpw.NewCluster(httpw.Config{Key: []byte("0123456789abcdef0123456789abcdef"), CacheSizes: []int{-1}, NoTwin: true, BatchLimit: 1, WithAuth: true})
+			cl := httpw.NewCluster(httpw.Config{Key: []byte("0123456789abcdef0123456789abcdef"), CacheSizes: []int{-1}, NoTwin: true, BatchLimit: 1, WithAuth: true,
+				Setup: func(_ int, _ *vgirpc.Server, h *vgirpc.HttpServer) {
+					h.SetUploadURLProvider(c22Provider{gen: func() (vgirpc.UploadURL, error) {
+						return vgirpc.UploadURL{UploadURL: "https://store.test/up", DownloadURL: "https://store.test/down", ExpiresAt: time.Now().Add(time.Hour)}, nil
+					}})
+				}})
 			sim.Spawn("http-adversary", func() {
 				// legitimate tokens to play with
 				ex := &pipew.Op{Kind: "stream", Method: "exch2", Script: &hx.Script{Nonce: 3500, Outcome: "ok", Mode: "exchange"}, StreamKind: "exchange", CancelAt: -1}
 				tk := httpw.Decode(httpw.Post(cl.Inst[0], "/exch2/init", pipew.RequestBytes(ex), httpw.Ident{}, nil))
 				contBody := httpw.ContBody(tk.Cursor, tk.Call, false, []int64{1}, false, hx.Meta{})
+				// a producer stream advanced by one or two legitimate turns: the
+				// cursors of later turns are replayed on other routes too
+				psc := &hx.Script{Nonce: 3501, Outcome: "ok", Mode: "producer"}
+				for k := 0; k < 6; k++ {
+					psc.Turns = append(psc.Turns, hx.Step{Act: "emit"})
+				}
+				pr := &pipew.Op{Kind: "stream", Method: "prod2", Script: psc, StreamKind: "producer", CancelAt: -1}
+				ptk := httpw.Decode(httpw.Post(cl.Inst[0], "/prod2/init", pipew.RequestBytes(pr), httpw.Ident{}, nil))
+				lateBody := contBody
+				if ptk.Cursor != "" {
+					cur := ptk.Cursor
+					for k := 0; k < 1+tp.Draw(2); k++ {
+						t2 := httpw.Decode(httpw.Post(cl.Inst[0], "/prod2/exchange", httpw.ContBody(cur, ptk.Call, false, nil, false, hx.Meta{}), httpw.Ident{}, nil))
+						if t2.Cursor == "" {
+							break
+						}
+						cur = t2.Cursor
+					}
+					lateBody = httpw.ContBody(cur, ptk.Call, false, nil, false, hx.Meta{})
+				}
+				uploadBody := hx.RawRequestBytes(hx.Int64Batch("count", []int64{2}, false), hx.M(hx.KMethod, "__upload_url__", hx.KReqVersion, "1"))
 				routes := []struct {
 					path string
 					body []byte
-				}{{"/u_str", unaryBytes}, {"/exch/init", pipew.RequestBytes(streamOp)}, {"/exch2/exchange", contBody}, {"/prod2/exchange", contBody}, {"/dyn/exchange", contBody}, {"/__describe__", unaryBytes}}
+				}{{"/u_str", unaryBytes}, {"/exch/init", pipew.RequestBytes(streamOp)}, {"/exch2/exchange", contBody}, {"/prod2/exchange", contBody}, {"/dyn/exchange", contBody}, {"/__describe__", unaryBytes},
+					{"/exch2/exchange", lateBody}, {"/dyn/exchange", lateBody}, {"/prod/exchange", lateBody}, {"/u_str/exchange", lateBody}, {"/prod2/exchange", lateBody},
+					{"/__upload_url__/init", uploadBody}}
 				n := 6 + tp.Draw(10)
 				if sweep {
 					n = 0
@@ -541,7 +570,10 @@ func C03(e *simkern.Env) {
 						what = "bytes altered"
 						sim.Fault("http-flip")
 					case 2:
-						p, shape := structured(tp, []string{"u_str", "exch", "exch2", "prod2"}[tp.Draw(4)], int64(3600+k), segName, segSize)
+						p, shape := structured(tp, []string{"u_str", "exch", "exch2", "prod2", "__upload_url__"}[tp.Draw(5)], int64(3600+k), segName, segSize)
+						if tp.Bool(1, 4) {
+							rt.path = "/__upload_url__/init" // pointer-shaped and odd batches on the upload-URL route too
+						}
 						body, what = p, "structured "+shape
 						sim.Fault("http-structured")
 					case 3:
@@ -599,9 +631,9 @@ func init() {
 		Real:  []string{"vgirpc.Server.ServeWithContext / serveOne / ReadRequest / deserializeParams / shm attach+resolve, HttpServer.ServeHTTP on unary, init and exchange routes", "arrow-go IPC reader (reached through the server)"},
 		Stub:  []string{"duplex byte stream with half-close", "adversary", "net/http-style panic capture around ServeHTTP"},
 		Quick: 400, Thorough: 40000,
-		Warm: c36Warm,
-		FaultKinds: []string{"truncate", "flip", "splice", "trailing", "structured", "stream-input-shape", "sweep-truncate", "sweep-flip", "http-truncate", "http-flip", "http-structured", "http-continuation-shape", "http-sweep-truncate"},
+		Warm:        c36Warm,
+		FaultKinds:  []string{"truncate", "flip", "splice", "trailing", "structured", "stream-input-shape", "sweep-truncate", "sweep-flip", "http-truncate", "http-flip", "http-structured", "http-continuation-shape", "http-sweep-truncate"},
 		Assumptions: []string{"byte alterations are confined to record-batch bodies, message length prefixes and the contents of custom-metadata strings, and alterations that make a length prefix or declared body length exceed 1 MiB are not sent: arrow-go sizes allocations from the lengths and flatbuffer vector lengths it reads (a flipped Schema.fields length made it request 376 GB and the Go runtime killed the worker with 'fatal error: out of memory', which no in-process harness can observe and survive — recorded in DESIGN.md as a finding outside the explored space); the number skipped is reported as a probe", "the adversary half-closes after writing, so a server blocked waiting for more bytes is not counted as a hang"},
-		Exhaustive: false,
+		Exhaustive:  false,
 	}
 }
